@@ -8,6 +8,7 @@ import Proofs.FnSFmt
 import Proofs.FnSRender
 namespace Props.FnSC19
 
+
 def obligations : List Lean.Name := [
   ``FnSEq.fmtPad_toList,
   ``FnSEq.fmtPad_eq,
